@@ -486,6 +486,14 @@ func (u *Unit) Prove(st *State, name, class string, tags []string, pos token.Pos
 	f := &Failure{Asserts: append(append([]string(nil), st.PCs...), Not(goal).String()), Goal: goal.String(), Result: r, Trace: append([]string(nil), st.Trace...), NDecls: len(u.decls), Weak: st.Weak, Cuts: st.Cuts}
 	switch class {
 	case "bounds", "nilmap", "div0", "typeassert", "makeslice", "chan-closed":
+		if len(st.Weak) > 0 && r != "unsat" {
+			// on a weak path this is "cannot decide", not a panic of the real program: the
+			// path goes on as if the operation had succeeded, so that what lies behind it is
+			// still looked at (and is undecided as well if it fails)
+			o.Failures = append(o.Failures, f)
+			st.Assume(goal)
+			return false
+		}
 		// the real program panics here: what follows on this path is not a reachable
 		// state, and facts derived from it must not leak into other queries
 		u.deadPath = true
